@@ -30,30 +30,34 @@ def _coverage(rs):
         "type_names_compared": _sum(rs, "type_names_compared") + _sum(rs, "attr_type_names_compared"),
         "defaults_compared": _sum(rs, "element_text_compared") + _sum(rs, "attribute_lists_compared"),
         "parses": _sum(rs, "parses"),
-        # violations that match a diagnosed library defect (field "defect", see docs/c08.md) and the remainder
-        "violations_by_diagnosed_defect": _by_defect(rs),
-        "violations_not_matching_a_diagnosed_defect": _sum(rs, "violations") - sum(_by_defect(rs).values()),
+        # strict witnesses of the diagnosed library defects (space "witness": one violation "defect:<slug>" per defect that still shows) and
+        # the mismatches in the other spaces that are exactly explained by a defect predicate (counted, not reported; see docs/c08.md section 4)
+        "defect_witnesses": {"failing": _sum(rs, "witnesses_failing"), "passing": _sum(rs, "witnesses_passing")},
+        "mismatches_explained_by_known_defect": _by_prefix(rs, "known_defect:"),
     }
 
 
-def _by_defect(rs):
+def _by_prefix(rs, prefix):
     out = {}
     for r in rs:
         for k, v in r.get("counters", {}).items():
-            if k.startswith("tagged:"):
-                out[k[7:]] = out.get(k[7:], 0) + v
+            if k.startswith(prefix):
+                out[k[len(prefix):]] = out.get(k[len(prefix):], 0) + v
     return out
 
 
 def _particles(tier, full, length, wordcap, alldeep, deadline=None):
-    args = ["--space", "particles", "--tier", tier, "--full", full, "--len", length, "--wordcap", wordcap, "--alldeepmax", alldeep, "--case-timeout", 120]
+    args = ["--space", "particles", "--tier", tier, "--full", full, "--len", length, "--wordcap", wordcap, "--alldeepmax", alldeep, "--case-timeout", 120, "--known", "skip"]
     if deadline:
         args += ["--deadline", deadline]
     return dict(name="particles-" + tier, driver="c08_schema", args=args)
 
 
+_WITNESS = dict(name="witness", driver="c08_schema", args=["--space", "witness", "--workers", 2])
+
+
 def _batch(space, tier):
-    return dict(name=space + "-" + tier, driver="c08_schema", args=["--space", space, "--tier", tier, "--case-timeout", 120])
+    return dict(name=space + "-" + tier, driver="c08_schema", args=["--space", space, "--tier", tier, "--case-timeout", 120, "--known", "skip"])
 
 
 SPEC = dict(
@@ -85,12 +89,15 @@ SPEC = dict(
         "SAX2 PSVIElement::getTypeDefinition()==null is accepted for xs:anyType (documented convention of the DOM builder); DOMTypeInfo must say anyType",
         "delivered lexical form of whitespace-padded attribute values (' 5 ') is not compared (datatype normalisation belongs to C09)",
         "type names are compared only for valid items; anonymous types carry no name claim",
+        "six diagnosed library defects (docs/c08.md section 4): each is executed strictly by one minimal witness in the space 'witness' and reported there as "
+        "a violation of kind 'defect:<slug>' while it persists; in the other spaces a mismatch that is exactly explained by the structural predicate of a defect "
+        "whose witness still fails (start-up probe) is counted as known_defect:<id> instead of being reported; when a witness passes its predicate is switched off",
     ],
     coverage=_coverage,
     runs=dict(
-        quick=[_particles("quick", 3, 5, 1000, 250), _batch("attrs", "quick"), _batch("content", "quick"), _batch("types", "quick"),
+        quick=[_WITNESS, _particles("quick", 3, 5, 1000, 250), _batch("attrs", "quick"), _batch("content", "quick"), _batch("types", "quick"),
                _batch("wild", "quick"), _batch("assembly", "quick")],
-        thorough=[_particles("thorough", 4, 6, 2000, 300, deadline=1250), _batch("attrs", "thorough"), _batch("content", "thorough"), _batch("types", "thorough"),
+        thorough=[_WITNESS, _particles("thorough", 4, 6, 2000, 300, deadline=1250), _batch("attrs", "thorough"), _batch("content", "thorough"), _batch("types", "thorough"),
                   _batch("wild", "thorough"), _batch("assembly", "thorough")],
     ),
     manifest=dict(
@@ -98,10 +105,10 @@ SPEC = dict(
              "occurrence pairs on every node (both the counter path and the subtree-expansion path of ComplexTypeInfo/DFAContentModel), all-groups, wildcards, "
              "UPA and cos-all-limited rejection, attribute uses x value constraints x attribute wildcards, content kinds x value constraints, "
              "extension/restriction x abstract/block/final x xsi:type x xsi:nil x substitution groups, wildcard namespace constraints x processContents, "
-             "and eleven ways of assembling the same component (global/local, named/anonymous, groups, include, chameleon include, import); "
+             "and twelve ways of assembling the same component (global/local, named/anonymous, groups, include, chameleon include, import, no target namespace); "
              "plus governing type names (DOMTypeInfo / PSVI) and delivered defaults.",
         note="Reference = Brzozowski derivatives with counters, self-checked against a denotational matcher; Structures rules transcribed for exactly the generated components. "
-             "Six library defects are diagnosed and tagged (field 'defect'); see docs/c08.md.",
+             "Six library defects are diagnosed, witnessed strictly (space 'witness', kinds 'defect:<slug>') and otherwise skipped by predicate; see docs/c08.md.",
         technique="bounded-exhaustive enumeration of typed schema models x child-word batches against a derivative-based reference and a direct rule implementation",
     ),
 )
